@@ -120,9 +120,12 @@ func callSitesOf(f *ssa.Function) ([]ssa.Instruction, bool) {
 	scan := func(g *ssa.Function) {
 		for _, h := range withAnon(g) {
 			eachInstr(h, func(in ssa.Instruction) {
-				if ci, ok := in.(ssa.CallInstruction); ok && ci.Common().StaticCallee() == f {
-					res.sites = append(res.sites, in)
-					return
+				if ci, ok := in.(ssa.CallInstruction); ok {
+					// (a call from a generic body reaches an instantiation whose origin is the generic method)
+					if sc := ci.Common().StaticCallee(); sc != nil && (sc == f || sc.Origin() == f) {
+						res.sites = append(res.sites, in)
+						return
+					}
 				}
 				for _, op := range in.Operands(nil) {
 					if op != nil && *op == ssa.Value(f) {
@@ -138,10 +141,10 @@ func callSitesOf(f *ssa.Function) ([]ssa.Instruction, bool) {
 			case *ssa.Function:
 				scan(x)
 			case *ssa.Type:
-				for _, t := range []types.Type{x.Type(), types.NewPointer(x.Type())} {
-					ms := f.Prog.MethodSets.MethodSet(t)
-					for i := 0; i < ms.Len(); i++ {
-						if g := f.Prog.MethodValue(ms.At(i)); g != nil && g.Pkg == f.Pkg && g.Synthetic == "" {
+				// declared methods (this also covers generic types, whose method sets are empty until instantiated)
+				if named, ok := x.Type().(*types.Named); ok {
+					for i := 0; i < named.NumMethods(); i++ {
+						if g := f.Prog.FuncValue(named.Method(i)); g != nil && g.Blocks != nil {
 							scan(g)
 						}
 					}
